@@ -154,6 +154,13 @@ func MapRange[M ~map[K]V, K comparable, V any](m M) iter.Seq2[K, V] {
 			keys = append(keys, k)
 		}
 		sortKeys(keys)
+		if e := cur.Load(); e != nil && e.mapDescending {
+			// harness-selected alternative order (Go's own order is unspecified): lets a
+			// scenario show that a result does not depend on ascending iteration
+			for i, j := 0, len(keys)-1; i < j; i, j = i+1, j-1 {
+				keys[i], keys[j] = keys[j], keys[i]
+			}
+		}
 		for _, k := range keys {
 			v, ok := m[k]
 			if !ok {
